@@ -375,7 +375,9 @@ pub fn run(tier: &str, only: Option<&Value>) -> i32 {
                     if r.compile.iter().any(|d| d.rendered.contains("__verif_exec")) {
                         viol = Some((format!("driver_does_not_compile:{}", r.compile[0].code), r.compile[0].rendered.clone()));
                     } else {
-                        rep.count("not_compilable_(judged_by_C13)", 1);
+                        // the accessor (and every wrapper that dispatches through the shared pointer) exists only
+                        // as part of this module: if it does not compile there is nothing that could return the pointer
+                        viol = Some((format!("accessor_cannot_be_executed:emitted_module_does_not_compile:{}", r.compile[0].code), r.compile.iter().take(3).map(|d| d.rendered.clone()).collect::<Vec<_>>().join("\n")));
                     }
                 } else if let Some(cr) = &r.crashed {
                     viol = Some(("accessor_crashed".to_string(), cr.clone()));
